@@ -9,6 +9,7 @@ pub mod c02;
 pub mod c03;
 pub mod c04;
 pub mod c07;
+pub mod c18;
 
 pub fn run(ctx: &Ctx) -> i32 {
     let verdict: Verdict = match ctx.prop.as_str() {
@@ -17,6 +18,7 @@ pub fn run(ctx: &Ctx) -> i32 {
         "C03" => c03::run(ctx),
         "C04" => c04::run(ctx),
         "C07" => c07::run(ctx),
+        "C18" => c18::run(ctx),
         other => {
             eprintln!("rt: property {other} is not served by this engine");
             return EXIT_INCONCLUSIVE;
@@ -33,6 +35,7 @@ pub fn replay_case(prop: &str, sub: &str, case: Value) -> Result<(), String> {
         "C03" => c03::replay(sub, case),
         "C04" => c04::replay(sub, case),
         "C07" => c07::replay(sub, case),
+        "C18" => c18::replay(sub, case),
         other => Err(format!("HARNESS: no replay for property {other}")),
     }
 }
